@@ -108,10 +108,11 @@ def run(rep):
             "NextRequest"]
     base = dict(sc=sc, dk="AllDamage", amts="A27", amts1="A7", into="A3", gen="A27", maxops=3)
     plans = [("repaired design, damaged responses",
-              dict(base, sc="ScC13", maxops=5, amts="A1237", amts1="A27", _cov=True, _need=need) if quick else
+              dict(base, sc="ScC13", maxops=4, _cov=True, _need=need) if quick else
               dict(base, sc="ScC13", maxops=6, after=2, amts="AFull", amts1="A1237", gen="A1237", _cov=True, _need=need), None)]
     for d in ("JustD11", "JustF1", "JustF2", "JustF3", "JustF4"):
-        plans.append((f"deviation {d[4:]} exhibited", dict(base, sc="ScC13", maxops=3, kd=d), bc.DEFECT_CLAUSES[d]))
+        plans.append((f"deviation {d[4:]} exhibited", dict(base, sc="ScC13Dev" if quick else "ScC13", maxops=3, kd=d),
+                      bc.DEFECT_CLAUSES[d]))
     plans.append(("liveness: an owed error arrives", dict(spec="LiveSpec", sc="ScC13Tiny", dk="AllDamage", amts="A2", amts1="A2",
                                                           into="A2", gen="A2", maxops=30, after=0, body=bc.LIVE_BODY), None))
     J = bc.JOBS
@@ -120,13 +121,13 @@ def run(rep):
         if J > 4:
             f1 = tp.submit(bc.stage1, plans)
             f2 = tp.submit(bc.emit, base, max(2, J // 2))
-            bc.run_all(rep, pool, eruns, findings, counters, "enumerated damage x API", per=300 if quick else 1500)
+            bc.run_all(rep, pool, eruns, findings, counters, "enumerated damage x API", per=max(150, -(-len(eruns) // (2 * J))) if quick else 1500)
             r2, groups, nlines = f2.result()
             bc.account_stage1(rep, f1.result())
         else:
             bc.account_stage1(rep, bc.stage1(plans))
             r2, groups, nlines = bc.emit(base, J)
-            bc.run_all(rep, pool, eruns, findings, counters, "enumerated damage x API", per=300 if quick else 1500)
+            bc.run_all(rep, pool, eruns, findings, counters, "enumerated damage x API", per=max(150, -(-len(eruns) // (2 * J))) if quick else 1500)
         rep.stage1.append({"run": "emission " + sc, "distinct_states": r2.distinct, "states_generated": r2.generated,
                            "depth": r2.depth, "wall_s": round(r2.wall, 1), "behaviours_emitted": nlines,
                            "op_sequences": len(groups) - 1})
@@ -136,7 +137,8 @@ def run(rep):
         mruns, skipped = bc.runs_from_groups(groups, variants, rep.seed)
         if len(mruns) + skipped != (len(groups) - 1) * len(variants) or not mruns:
             raise tlc.MachineryError(f"emitted {len(groups) - 1} op sequences x {len(variants)} variants but built {len(mruns)} + {skipped}")
-        done = bc.run_all(rep, pool, mruns, findings, counters, "model op sequences", per=400 if quick else 1500)
+        done = bc.run_all(rep, pool, mruns, findings, counters, "model op sequences",
+                          per=max(200, -(-len(mruns) // (2 * J))) if quick else 1500)
         if done + counters["generr"] < len(mruns):
             raise tlc.MachineryError(f"replayed {done} of {len(mruns)} model op sequences")
     must = counters["cls"].get("must", 0)
